@@ -105,12 +105,25 @@ func (e *specEnv) eval(s Spec) Val {
 			binders = append(binders, "("+n+" "+e.tr.C.sortOf(ty)+")")
 			_ = guards
 		}
-		body := e.with(names).eval(s.Body)
+		inner := e.with(names)
+		body := inner.eval(s.Body)
 		q := "forall"
 		if !s.Forall {
 			q = "exists"
 		}
-		return Val{T: "(" + q + " (" + strings.Join(binders, " ") + ") " + body.T + ")", Ty: tBool}
+		bt := body.T
+		if len(s.Trig) > 0 {
+			var ps []string
+			for _, t := range s.Trig {
+				tv := inner.eval(t)
+				if tv.K != nil {
+					tv = inner.coerce(tv, tInt)
+				}
+				ps = append(ps, tv.T)
+			}
+			bt = "(! " + bt + " :pattern (" + strings.Join(ps, " ") + "))"
+		}
+		return Val{T: "(" + q + " (" + strings.Join(binders, " ") + ") " + bt + ")", Ty: tBool}
 	case *SGo:
 		return e.expr(s.E, s)
 	}
@@ -256,6 +269,9 @@ func (e *specEnv) coerce(v Val, t types.Type) Val {
 	if v.K != nil {
 		if isInt(t) {
 			return Val{T: bvLit(v.K, intWidth(t)), Ty: t}
+		}
+		if refLike(t) {
+			return Val{T: v.K.String(), Ty: t} // arr(s) == 0: identity of the nil backing array
 		}
 		sfail("cannot use integer constant as %v", t)
 	}
@@ -526,10 +542,10 @@ func (e *specEnv) fieldAddr(base Val, name string) Val {
 		st := curT.Underlying().(*types.Struct)
 		ft := st.Field(i).Type()
 		if k == len(index)-1 {
-			return Val{T: app(tr.C.addrFn(structKey(curT, st), fieldName(st, i)), ref), Ty: types.NewPointer(ft)}
+			return Val{T: tr.addr(structKey(curT, st), fieldName(st, i), ref), Ty: types.NewPointer(ft)}
 		}
 		if isAggregate(ft) {
-			ref = app(tr.C.addrFn(structKey(curT, st), fieldName(st, i)), ref)
+			ref = tr.addr(structKey(curT, st), fieldName(st, i), ref)
 			curT = ft
 		} else if p, ok := ft.Underlying().(*types.Pointer); ok {
 			ref = tr.loadPlace(tr.fieldPlace(ref, curT, st, i), e.heap).T
@@ -769,7 +785,7 @@ func (e *specEnv) call(x *ast.CallExpr, sg *SGo) Val {
 		}
 		k = e.coerce(k, mt.Key())
 		dom, _, _ := tr.C.mapKeys(tr.C.sortOf(mt.Key()), tr.C.sortOf(mt.Elem()))
-		return Val{T: sel(sel(tr.C.hget(e.heap, dom), m.T), k.T), Ty: tBool}
+		return Val{T: and(not(eq(m.T, "0")), sel(sel(tr.C.hget(e.heap, dom), m.T), k.T)), Ty: tBool}
 	case "typeis": // typeis(x, T): dynamic type of interface value x is T
 		v := arg(0)
 		t, ok := e.isTypeExpr(x.Args[1])
